@@ -155,6 +155,15 @@ TOLS = {'CG-unbounded': 1e-6, 'CG-1e-3': 1e-3, 'CG-1e-5': 1e-5, 'CG-default': 1e
 
 
 def spd_operator(rng: Any, s: Any, blockdiag: bool = True) -> Any:
+    if gen.is_sds(s) and len(s.shape) == 1 and s.shape[0] >= 3 and rng.integers(2):
+        # a dense symmetric matrix with a prescribed, geometrically spaced spectrum (condition number 5..50): iterative
+        # solvers need about sqrt(cond) log(1/tol) iterations here, more than the size of the system
+        from furax._base.dense import DenseBlockDiagonalOperator
+        n = s.shape[0]
+        u, _ = np.linalg.qr(rng.normal(size=(n, n)))
+        ev = np.geomspace(1.0, float(rng.uniform(5, 50)), n)
+        m = (u * ev) @ u.T
+        return DenseBlockDiagonalOperator(jnp.asarray((m + m.T) / 2, dtype=s.dtype), s, 'ij,j->i')
     if gen.is_sds(s):
         return gen.spd(rng, s)
     c = gen.children(s)
@@ -174,7 +183,7 @@ def case_lazy(rng: Any, ctx: Ctx, index: int) -> None:
     s = gen.rand_struct(rng)
     if dense.size_of(s) > 12 or len({np.dtype(l.dtype) for l in dense.leaves(s)}) > 1:
         # lineax solvers refuse pytrees of mixed dtypes (DESIGN §7.2): uniform-dtype structures only
-        s = gen.S((int(rng.integers(2, 7)),), gen.case_dtype(rng))
+        s = gen.S((int(rng.integers(2, 13)),), gen.case_dtype(rng))
     name = gen.pick(rng, sorted(SOLVERS))
     # lineax's BiCGStab returns NaN for an exactly zero right-hand side (a dependency behaviour, see
     # DESIGN §7): block-diagonal operands, whose blocks see zero sub-vectors, are not paired with it
